@@ -94,6 +94,11 @@ def run_impl(ctx, cases, lines):
     idx_bg = [i for i, c in enumerate(cases) if rc.bg_of(c[1])]
     idx_sync = [i for i, c in enumerate(cases) if not rc.bg_of(c[1])]
     out = [None] * len(cases)
+    if ctx.get("release_pass"):
+        # (the release-profile pass of ./check: only the default build has a release binary; the bg cases ran once)
+        for i in idx_bg:
+            out[i] = "xskipped"
+        idx_bg = []
     for idxs, key in ((idx_sync, "vh"), (idx_bg, "vh_bg")):
         sub = dict(ctx, vh=ctx[key])
         got = rc.run_impl(sub, [cases[i] for i in idxs], [lines[i] for i in idxs])
